@@ -748,6 +748,7 @@ def _format_string(value: bytes) -> bytes:
         value.startswith((b" ", b"\t"))
         or value.endswith((b" ", b"\t"))
         or b"#" in value
+        or b";" in value
     ):
         return b'"' + _escape_value(value) + b'"'
     else:
